@@ -658,6 +658,7 @@ func Run(cfg hx.Config) error {
 	r.Rule = "each case = one libindex.New (config) or Libindex.Index call of a history on the real code over the in-memory store: 5..40 calls over a family of 3..5 manifests drawn from 6 layers (shared and repeated layers), one call in 7 carries a random fault, one in 10 changes the scanner set (add, remove, version bump, same name under another kind, permutation, rollback; scanners may be listed by two ecosystems, may implement ConfigurableScanner / RPCScanner, may fail to configure, may need the network), one in 10 is a Libindex.DeleteManifests of one or two manifests of the family (or an unknown one), one in 10 a libindex.New with a nil argument / failing RegisterScanners / failing scanner constructor, one in 10 switches the network of network-dependent scanners; every fault-free Index is compared with a cold run of the same manifest under the current configuration on a fresh store; non-trivial = Index on a store that already went through at least two operations"
 	rnd := hx.NewRand(cfg.Seed)
 	h := &hist{r: r, s: ctrl.NewSession(r)}
+	h.s.ReplayCorpus(cfg.Corpus)
 	h.known()
 	h.knownMore()
 
